@@ -672,6 +672,32 @@ def run_file_pairs(b, rt, Failed, refdir, tmpdir, actdir, top):
         b.check('C15.failing-comparison-fails', False, w, 'passed')
         return None
 
+    # removable lines on one side only (file against file): exclusions are in force, so the post-processed pair is
+    # written and differs exactly on the unexcused line
+    for side in ('reference', 'actual', 'both'):
+        for f in os.listdir(tmpdir):
+            os.unlink(os.path.join(tmpdir, f))
+        rt_text = 'header\n' + ('# optional r\n' if side in ('reference', 'both') else '') + 'alpha\nbeta\ngamma\n'
+        ac_text = 'header\n' + ('# optional a\n' if side in ('actual', 'both') else '') + 'alpha\nBETA\ngamma\n'
+        with open(os.path.join(refdir, 'r.txt'), 'w', encoding='utf-8', newline='') as f:
+            f.write(rt_text)
+        pth = os.path.join(actdir, 'one-sided.txt')
+        with open(pth, 'w', encoding='utf-8', newline='') as f:
+            f.write(ac_text)
+        w = {'case': 'removable line on one side only', 'side': side, 'actual': ac_text, 'reference': rt_text,
+             'options': {'remove_lines': ['# optional']}}
+        b.case(('file-pairs', 'one-sided-removal', side))
+        msg = attempt(w, lambda: rt.assertTextFileCorrect(pth, 'r.txt', remove_lines=['# optional']))
+        if msg is not None:
+            posts = POST.findall(msg)
+            b.check('C15.post-processed-pair-written', len(posts) == 1, w, msg[:400])
+            for pa, pe in posts:
+                if os.path.exists(pa) and os.path.exists(pe):
+                    b.check('C15.post-processed-pair-differs-exactly-on-unexcused-lines', ndiff(pa, pe) == 1, w,
+                            'the pair differs on %d lines; one line (beta / BETA) carries an unexcused difference'
+                            % ndiff(pa, pe))
+                else:
+                    b.check('C15.named-files-exist', False, w, '%s %s' % (pa, pe))
     for where in ('actdir', 'tmpdir-own-names'):
         for grouping in ('one-assertion', 'successive'):
             for names in (['x.txt', 'y.txt'], ['y.txt', 'x.txt', 'z.txt'], ['r.txt', 'z.txt'], ['z.txt']):
